@@ -17,8 +17,8 @@ checks = {
  "C08": ("model-based stateful PBT (proptest): conservation law over uniquely tagged values and a recording callback", LS+"; at every quiescent point each accepted value is resident or was handed to exactly one callback of the right kind; plus real-thread stress", "6.C08"),
  "C09": ("model-based stateful PBT (proptest) over a family of validators", LS+"; insert_if_present on absent keys changes nothing, vetoed writes leave value and deadline untouched (model-based, metamorphic twin without the vetoed writes, and a model-free in-place-replacement invariant that also runs on colliding key tables)", "6.C09"),
  "C11": ("model-based stateful PBT (proptest): clear() with buffered work, differential against an emptied model", LS+"; after clear() nothing written before is retrievable, counters restart, the model continues from empty", "6.C11"),
- "C13": ("PBT (proptest): differential against ideal exact counters with saturation and halving", "component engine (E4) on CountMinSketch and TinyLFU through the verif facade", "6.C13"),
- "C14": ("PBT (proptest): membership oracle + statistical false-positive bound", "component engine (E4) on the bloom filter through the verif facade", "6.C14"),
+ "C13": ("PBT (proptest): differential against ideal exact counters with saturation and halving", "component engine (E4) on CountMinSketch and TinyLFU through the verif facade; inside the cache: lock-step interpreter with a parked policy worker (estimate >= recorded, aging window position) and real-thread Lookups stress", "6.C13"),
+ "C14": ("PBT (proptest): membership oracle + statistical false-positive bound", "component engine (E4) on the bloom filter through the verif facade; inside the cache: lock-step interpreter with a parked policy worker and a read-only view of the doorkeeper (no false negatives in the window, few false positives)", "6.C14"),
  "C15": ("model-based stateful PBT (proptest) with a parked policy worker", LS+"; ring-buffer batching, kept/dropped accounting and estimate >= lookups recorded since the last aging reset", "6.C15"),
  "C16": ("model-based stateful PBT (proptest): charge formula", LS+"; per-key charge == explicit cost or Coster value, plus internal overhead unless ignored; callbacks report the charge", "6.C16"),
  "C17": ("model-based stateful PBT (proptest): conservation laws over metrics + Histogram PBT", LS+"; all eleven counters and the histogram count compared with the model at every step; Histogram component generator", "6.C17"),
@@ -47,9 +47,9 @@ m = {
   "add_only": True,
  },
  "engines": [
-  {"name": "lockstep", "path": "harness/src/lockstep.rs", "serves_properties": [i for i in ids if i in ("C01","C02","C03","C04","C05","C06","C08","C09","C10","C11","C15","C16","C17","C18","C19","C20")], "kind_free_text": "E1/E2: proptest-generated (config x op sequence) cases executed in lock-step on a parked sync/async cache and on a reference model, virtual clock by clock_gettime interposition"},
+  {"name": "lockstep", "path": "harness/src/lockstep.rs", "serves_properties": [i for i in ids if i in ("C01","C02","C03","C04","C05","C06","C08","C09","C10","C11","C13","C14","C15","C16","C17","C18","C19","C20")], "kind_free_text": "E1/E2: proptest-generated (config x op sequence) cases executed in lock-step on a parked sync/async cache and on a reference model, virtual clock by clock_gettime interposition"},
   {"name": "component", "path": "harness/src/comp.rs", "serves_properties": ["C07","C13","C14","C17","C18"], "kind_free_text": "E4: proptest generators driving the crate-private estimators and the policy through the verif facade"},
-  {"name": "stress", "path": "harness/src/stress.rs", "serves_properties": ["C01","C02","C05","C06","C08","C09","C10","C12","C17","C19","C20"], "kind_free_text": "E3: generated multi-thread scripts against caches with real workers (sync, tokio mt/ct, async-std, thread-per-task), in child processes; kinds Invariants, Barrier, WaitRace, Close, Config, Reclaim, Validated; history invariants inline and at quiescence, state evidence for hangs"},
+  {"name": "stress", "path": "harness/src/stress.rs", "serves_properties": ["C01","C02","C05","C06","C08","C09","C10","C11","C12","C13","C15","C17","C19","C20"], "kind_free_text": "E3: generated multi-thread scripts against caches with real workers (sync, tokio mt/ct, async-std, thread-per-task), in child processes; kinds Invariants, Barrier, WaitRace, Close, Config, Reclaim, Validated; history invariants inline and at quiescence, state evidence for hangs"},
   {"name": "fuzz", "path": "fuzz/", "serves_properties": ["C01","C02","C03","C04","C05","C06","C07","C08","C09","C11","C13","C14","C15","C16","C17","C18"], "kind_free_text": "E5: cargo-fuzz/libFuzzer targets `lockstep` and `estimators` behind hand-written arbitrary::Unstructured decoders, oracle inside the target, run by the thorough tier (VERIF_FUZZ_SECS, default 90 s)"},
  ],
  "checks": [],
